@@ -124,7 +124,25 @@ fn data_independence(seed: u64, idx: u64, rep: &mut Report) {
 
 /// all assignments of {absent, x, y} to three paths for a, b, base; both trust settings
 fn maps(rep: &mut Report) {
-    let paths = [PathBuf::from("a/p"), PathBuf::from("b"), PathBuf::from("a.q")];
+    use std::os::unix::ffi::OsStringExt;
+    let raw = |b: &[u8]| PathBuf::from(std::ffi::OsString::from_vec(b.to_vec()));
+    // the decision must not depend on what a path is CALLED: ordering traps, names that differ in case only, names
+    // that look like the tool's own staging files or conflict-copies, names that are not UTF-8
+    let families: Vec<[PathBuf; 3]> = vec![
+        [PathBuf::from("a/p"), PathBuf::from("b"), PathBuf::from("a.q")],
+        [PathBuf::from("README"), PathBuf::from("readme"), PathBuf::from("Readme")],
+        [PathBuf::from("f.copia-tmp"), PathBuf::from("d/g.copia-tmp"), PathBuf::from("f")],
+        [PathBuf::from("f"), PathBuf::from("f.conflict-h-0123456789ab"), PathBuf::from("f.conflict-h-0123456789ab-1")],
+        [raw(b"caf\xe9"), raw(b"caf\xe8"), PathBuf::from("cafe")],
+        [PathBuf::from("a"), PathBuf::from("a/b"), PathBuf::from("a.b")],
+        [PathBuf::from(".copia"), PathBuf::from(".copiaignore"), PathBuf::from("-")],
+    ];
+    for paths in &families {
+        maps_family(paths, rep);
+    }
+}
+
+fn maps_family(paths: &[PathBuf; 3], rep: &mut Report) {
     let vals: [Option<u8>; 3] = [None, Some(1), Some(2)];
     let fp = |v: u8| Fingerprint { blake3: [v; 32], ftype: FileType::File };
     let total = 3usize.pow(9);
